@@ -84,6 +84,12 @@ def main(tier, only=None):
              dict(module="vf.ch.h_c10", func="_foldb3", cases=48, what="sparse (indexing) / dense accumulation fold under an enclosing trace (grad of grad, hessian): boxed contributions, 3"),
              dict(module="vf.ch.h_c10", func="_foldb4", cases=384, what="boxed fold, 4 contributions", timeout={"quick": 240, "thorough": 900}),
              dict(module="vf.ch.h_c10", func="_fold5", cases=3840, what="sparse/dense accumulation fold, 5 contributions: all four add_outgrads branches x ownership", timeout={"quick": 240, "thorough": 900})]
+    if not only:
+        # accumulation across float widths (dtypes are invisible to the object-dtype engine): float64 replay evidence
+        from . import width_probe
+
+        enga.init()
+        results += width_probe.run(runner.SEED)
     ch = chrun.run_conditions(conds, tier) if not only else []
     bad = [r for r in ch if r["verdict"] not in ("confirmed",)]
     for r in bad:
